@@ -163,6 +163,12 @@ Definition shadow_name (k : string) : bool :=
   orb (andb (is_prefix "publicKey" k) (negb (String.eqb k "publicKey")))
       (andb (is_prefix "service" k) (negb (String.eqb k "service"))).
 
+(* a key or service list naming an id twice: a document like any other for the round trip, but not
+   "valid input" for the constructors-pass-validation clause (validation wants distinct ids) *)
+Definition repeats_entry_id (doc : obj) : bool :=
+  orb (negb (nodup_str (map entry_id (parse_objects (lookup "publicKey" doc)))))
+      (negb (nodup_str (map entry_id (parse_objects (lookup "service" doc))))).
+
 Definition judge_c14 (c : c14case) : verdict :=
   match c with
   | mk_c14doc doc in_class ips applied all_valid rt =>
@@ -174,7 +180,7 @@ Definition judge_c14 (c : c14case) : verdict :=
       | Some ps =>
           if negb (String.eqb (entry_id doc) "") then SpecFail 3
           else if andb in_class (negb (opt_obj_equiv applied (Some doc))) then SpecFail 4
-          else if andb in_class (negb all_valid) then
+          else if andb (andb in_class (negb (repeats_entry_id doc))) (negb all_valid) then
             (if existsb (fun kv => shadow_name (fst kv)) doc then Known 20 else SpecFail 5)
           else if negb rt then SpecFail 6
           else match m with
